@@ -221,6 +221,10 @@ enum Kind {
     Fifo,
     /// releases the most recently accepted item first
     Lifo,
+    /// order preserving, but withholds an item until its partner (the next item) has been
+    /// accepted, then releases both -- like an orderer waiting for a dependency.  Only used as
+    /// first stage and with an even number of inputs.
+    Pairs,
 }
 
 impl Kind {
@@ -228,6 +232,7 @@ impl Kind {
         match self {
             Kind::Fifo => "fifo",
             Kind::Lifo => "lifo",
+            Kind::Pairs => "pairs",
         }
     }
 }
@@ -237,6 +242,8 @@ struct Scripted {
     stage: usize,
     env: Rc<Env>,
     q: RefCell<VecDeque<u32>>,
+    /// Kind::Pairs: the item waiting for its partner
+    held: RefCell<Option<u32>>,
     notify: Notify,
 }
 
@@ -272,8 +279,21 @@ impl Processor<u32> for Scripted {
         };
         // the "expensive" part of accepting an item (a transaction, a signature check, ...)
         self.env.delay("d.process").await;
-        self.q.borrow_mut().push_back(stage_fn(self.stage, x));
-        self.notify.notify_one();
+        let v = stage_fn(self.stage, x);
+        if self.kind == Kind::Pairs {
+            let partner = self.held.borrow_mut().take();
+            match partner {
+                None => *self.held.borrow_mut() = Some(v),
+                Some(first) => {
+                    self.q.borrow_mut().push_back(first);
+                    self.q.borrow_mut().push_back(v);
+                    self.notify.notify_one();
+                }
+            }
+        } else {
+            self.q.borrow_mut().push_back(v);
+            self.notify.notify_one();
+        }
         guard.done = true;
         self.env.ev(Ev::ProcessDone(self.stage, x));
         Ok(())
@@ -287,7 +307,7 @@ impl Processor<u32> for Scripted {
             let v = {
                 let mut q = self.q.borrow_mut();
                 match self.kind {
-                    Kind::Fifo => q.pop_front(),
+                    Kind::Fifo | Kind::Pairs => q.pop_front(),
                     Kind::Lifo => q.pop_back(),
                 }
             };
@@ -306,6 +326,7 @@ fn scripted(env: &Rc<Env>, kind: Kind, stage: usize) -> Scripted {
         stage,
         env: env.clone(),
         q: RefCell::new(VecDeque::new()),
+        held: RefCell::new(None),
         notify: Notify::new(),
     }
 }
@@ -401,16 +422,19 @@ struct Config {
     inputs: Vec<u32>,
     terminates: bool,
     max_delay: usize,
+    /// deviation bound for this configuration
+    max_dev: usize,
 }
 
 impl Config {
     fn label(&self) -> String {
         format!(
-            "{}[{}] inputs={} end={}",
+            "{}[{}] inputs={} end={} dev<={}",
             self.topo.name(),
             self.kinds.iter().map(|k| k.name()).collect::<Vec<_>>().join(","),
             self.inputs.len(),
-            if self.terminates { "none" } else { "pending" }
+            if self.terminates { "none" } else { "pending" },
+            self.max_dev
         )
     }
     fn to_json(&self) -> Value {
@@ -420,6 +444,7 @@ impl Config {
             "inputs": self.inputs,
             "terminates": self.terminates,
             "max_delay": self.max_delay,
+            "max_dev": self.max_dev,
         })
     }
     fn from_json(v: &Value) -> Option<Config> {
@@ -429,15 +454,20 @@ impl Config {
                 .get("kinds")?
                 .as_array()?
                 .iter()
-                .map(|k| if k.as_str() == Some("lifo") { Kind::Lifo } else { Kind::Fifo })
+                .map(|k| match k.as_str() {
+                    Some("lifo") => Kind::Lifo,
+                    Some("pairs") => Kind::Pairs,
+                    _ => Kind::Fifo,
+                })
                 .collect(),
             inputs: v.get("inputs")?.as_array()?.iter().map(|x| x.as_u64().unwrap_or(0) as u32).collect(),
             terminates: v.get("terminates")?.as_bool()?,
             max_delay: v.get("max_delay")?.as_u64()? as usize,
+            max_dev: v.get("max_dev").and_then(|x| x.as_u64()).unwrap_or(2) as usize,
         })
     }
     fn all_fifo(&self) -> bool {
-        self.kinds.iter().all(|k| *k == Kind::Fifo)
+        self.kinds.iter().all(|k| *k != Kind::Lifo)
     }
     fn expected(&self, x: u32) -> u32 {
         (0..self.topo.stages()).fold(x, |v, s| stage_fn(s, v))
@@ -728,6 +758,7 @@ fn judge(mv: &mut MinV, cfg: &Config, ch: &Chooser, o: &Obs) {
 }
 
 fn configs(thorough: bool) -> Vec<Config> {
+    let base_dev = if thorough { 3 } else { 2 };
     let mut v = vec![];
     let kinds = [Kind::Fifo, Kind::Lifo];
     let topos: &[Topo] = if thorough {
@@ -748,14 +779,43 @@ fn configs(thorough: bool) -> Vec<Config> {
                     if !thorough && !terminates {
                         continue;
                     }
+                    // thorough: one more deviation where the space is small enough
+                    let deep = thorough
+                        && terminates
+                        && ks.iter().all(|k| *k == Kind::Fifo)
+                        && (topo == Topo::Single || (topo.stages() == 2 && len <= 2));
                     v.push(Config {
                         topo,
                         kinds: ks.clone(),
                         inputs: (1..=len as u32).collect(),
                         terminates,
                         max_delay: 2,
+                        max_dev: if deep { base_dev + 1 } else { base_dev },
                     });
                 }
+            }
+        }
+    }
+    // a withholding first stage (releases nothing until the second input has been forwarded)
+    for &topo in topos {
+        let mut ks = vec![Kind::Fifo; topo.stages()];
+        ks[0] = Kind::Pairs;
+        for terminates in [true, false] {
+            if !thorough && !terminates {
+                continue;
+            }
+            for len in [2u32, 4] {
+                if len == 4 && !(thorough && topo.stages() <= 2) {
+                    continue;
+                }
+                v.push(Config {
+                    topo,
+                    kinds: ks.clone(),
+                    inputs: (1..=len).collect(),
+                    terminates,
+                    max_delay: 2,
+                    max_dev: base_dev,
+                });
             }
         }
     }
@@ -764,7 +824,7 @@ fn configs(thorough: bool) -> Vec<Config> {
 
 pub fn run(mut rep: Report) -> i32 {
     let thorough = rep.thorough();
-    rep.rule = "one execution = one topology (single layer, two stream layers, composed pair, composed triple; thorough also stream layer + composed layer) x FIFO/LIFO scripted processors x 1..3 inputs, run to quiescence on the controlled executor under one choice vector (task scheduling, select! start branch, 0..2 parks per process/next call, input arrival, release order); non-trivial = an execution in which some `next` or `process` future of a scripted processor was pending (parked) at least once or an input arrived late, i.e. the schedule differs from the all-default one".into();
+    rep.rule = "one execution = one topology (single layer, two stream layers, composed pair, composed triple; thorough also stream layer + composed layer) x FIFO/LIFO scripted processors (plus chains whose first stage withholds items pairwise) x 1..3 inputs, run to quiescence on the controlled executor under one choice vector (task scheduling, select! start branch, 0..2 parks per process/next call, input arrival, release order); non-trivial = an execution in which some `next` or `process` future of a scripted processor was pending (parked) at least once or an input arrived late, i.e. the schedule differs from the all-default one".into();
 
     if let Some(path) = rep.args.replay.clone() {
         match explorer::report::load_replay(&path) {
@@ -791,7 +851,6 @@ pub fn run(mut rep: Report) -> i32 {
         return rep.finish();
     }
 
-    let max_dev = if thorough { 3 } else { 2 };
     let cfgs = configs(thorough);
     let wall_total = if thorough { 540.0 } else { 30.0 };
     let started = std::time::Instant::now();
@@ -800,10 +859,11 @@ pub fn run(mut rep: Report) -> i32 {
     for (ci, cfg) in cfgs.iter().enumerate() {
         let left = (wall_total - started.elapsed().as_secs_f64()).max(1.0);
         let share = left / (cfgs.len() - ci) as f64;
+        let max_dev = cfg.max_dev;
         let dcfg = DfsCfg {
             max_dev,
             max_execs: u64::MAX,
-            wall: Duration::from_secs_f64(share.max(0.5) * 3.0),
+            wall: Duration::from_secs_f64((share * 3.0).max(if thorough { 60.0 } else { 15.0 })),
             threads: rep.args.threads,
         };
         let rep_ref = &mut rep;
@@ -828,9 +888,23 @@ pub fn run(mut rep: Report) -> i32 {
         *per_topo.entry(cfg.topo.name()).or_default() += st.executions;
         rep.absorb_dfs(&cfg.label(), &st, max_dev);
     }
+    mv.confirm(&mut rep, |rp| {
+        let cfg = rp.get("config").and_then(Config::from_json);
+        let vector: Option<Vec<u32>> = rp.get("vector").and_then(|v| v.as_array()).map(|a| a.iter().map(|x| x.as_u64().unwrap_or(0) as u32).collect());
+        match (cfg, vector) {
+            (Some(cfg), Some(vector)) => {
+                let ch = Chooser::new(vector);
+                let o = run_one(&cfg, &ch);
+                let mut m = MinV::new();
+                judge(&mut m, &cfg, &ch, &o);
+                m.minimal_cases().into_iter().map(|(k, _)| k).collect()
+            }
+            _ => vec![],
+        }
+    });
     mv.flush(&mut rep);
     rep.set("executions_per_topology", json!(per_topo));
-    rep.set("deviation_bound", json!(max_dev));
+    rep.set("deviation_bound", json!(if thorough { "3 (4 for all-FIFO single-layer chains and two-stage chains with <= 2 inputs)" } else { "2" }));
     rep.assume("scripted processors are cancel-safe in `next` (they park before taking an item) and accept an item only at the end of `process`; their delays are parks released by an environment task, so every other task may run in between");
     rep.assume("each stream layer's Buffer task lives in its own LocalSet which is one task of the controlled executor; tokio's LocalSet, mpsc, Notify and select! are trusted");
     rep.assume("the consumer polls the outermost stream only when woken (no spurious polls)");
